@@ -98,6 +98,11 @@ def rf_configs(draw, spf_cap=4096, boundary_p=0.6, force=None):
         # bits 40-42: value mode (mostly pseudo-random; sometimes all zeros, a constant, the fill pattern itself, a ramp)
         "salt": draw(st.integers(0, (1 << 32) - 1)) | (draw(st.sampled_from([0, 0, 0, 0, 0, 0, 1, 2, 3, 4])) << 40), "uuid": "verif",
     }
+    u_ = draw(st.integers(0, 11))
+    if u_ == 0:
+        cfg["uuid"] = "urn:uuid:" + "0123456789abcdef" * 19  # a long session identifier (313 characters)
+    elif u_ == 1:
+        cfg["uuid"] = "6ba7b810-9dad-11d1-80b4-00c04fd430c8"
     if _spf(n, d, F) > 8192:
         # very large files: keep one narrow real subchannel so that a case stays below a few MB
         cfg["nsub"] = 1
